@@ -735,6 +735,8 @@ fn cmd_scenario(args: &BTreeMap<String, String>) -> i32 {
         "s3" => scripted::s3(),
         "persist_notice_after_truncation" => scripted::persist_notice_after_truncation(),
         "duplicate_forwarded_read" => scripted::duplicate_forwarded_read(),
+        "stale_persist_notice_on_reelected_leader" => scripted::stale_persist_notice_on_reelected_leader(),
+        "persist_notice_after_truncating_ready" => scripted::persist_notice_after_truncating_ready(),
         _ => {
             eprintln!("usage: raftsim scenario s3 [--write file] [--states]");
             return 2;
@@ -747,6 +749,12 @@ fn cmd_scenario(args: &BTreeMap<String, String>) -> i32 {
         for (i, a) in s.trace.iter().enumerate() {
             eprintln!("#{} {}", i + 1, serde_json::to_string(a).unwrap());
             let _ = w.apply(a);
+            if let Some(wn) = args.get("watch").and_then(|s| s.parse::<u64>().ok()) {
+                if let Some(x) = w.nodes.get(&wn) {
+                    let o = &x.obs;
+                    eprintln!("      n{} {:?} t{} commit{} persisted{} last{} prs {:?} notify_queue {:?} outstanding {}", wn, o.role, o.term, o.commit, o.persisted, o.last_index, o.prs.iter().map(|p| (p.id, p.matched, p.next_idx)).collect::<Vec<_>>(), x.notify_queue, x.outstanding.len());
+                }
+            }
         }
     }
     if args.contains_key("states") {
